@@ -73,7 +73,9 @@ def zernike(mask, index, normalize=True, rho=None, theta=None):
 
     if m == 0:
         if n == 0:
-            Z = mask
+            # a new floating point array like every other mode (not the caller's
+            # boolean mask itself)
+            Z = mask.astype(float)
         else:
             if normalize:
                 Z = np.sqrt(n+1) * R(m, n, rho) * mask
